@@ -323,6 +323,123 @@ def run_api(api, variant, net, seed):
     raise KeyError("no runner for API %s" % api)
 
 
+# ---------------------------------------------------------------------------
+# "regardless of what was called before": the seeded NON-inplace operations on trees, called twice (and once
+# more after different seeded calls) on the SAME object, on a fresh tree and on a tree with history, and once
+# on an independent rebuild of the same tree state
+TREE_APIS = {
+    "core.ContractionTree.subtree_reconfigure": ["default", "select_random", "search_random"],
+    "core.ContractionTree.subtree_reconfigure_forest": ["default", "select_max_bfs"],
+    "core.ContractionTree.slice": ["default"],
+    "core.ContractionTree.unslice_rand": ["default"],
+    "core.ContractionTree.simulated_anneal": ["default", "sliced"],
+    "pathfinders.path_simulated_annealing.simulated_anneal_tree": ["default"],
+    "core.ContractionTree.parallel_temper": ["default"],
+    "pathfinders.path_simulated_annealing.parallel_temper_tree": ["default"],
+    "core.ContractionTree.get_subtree": ["default"],
+    "core.ContractionTree.windowed_reconfigure": ["default"],
+    "core.ContractionTreeCompressed.simulated_anneal": ["default"],
+}
+COMPRESSED_APIS = ("core.ContractionTree.windowed_reconfigure", "core.ContractionTreeCompressed.simulated_anneal")
+
+
+def tree_obs_full(tree):
+    d = tree_obs(tree)
+    try:
+        st = tree.contract_stats()
+        d["costs"] = canon([st["flops"], st["write"], st["size"]])
+    except Exception as e:
+        d["costs"] = "raised %s" % type(e).__name__
+    return d
+
+
+def build_state(api, net, hist):
+    """a tree in a given state, built from scratch without any hidden randomness: a fixed path, then
+    (history) one short in-place seeded step of each requested kind"""
+    inputs, output, size_dict = net["inputs"], net["output"], net["size_dict"]
+    t = base_tree(net)
+    if api == "core.ContractionTreeCompressed.simulated_anneal":
+        t = ccore.ContractionTreeCompressed.from_path(inputs, output, size_dict, path=t.get_path())
+    if "slice" in hist and api not in COMPRESSED_APIS:
+        t.slice_(target_slices=2, max_repeats=2, seed=3)
+    if api == "core.ContractionTree.unslice_rand":
+        for ix in [ix for ix in dict.fromkeys(ix for term in inputs for ix in term)][:3]:
+            if ix not in t.sliced_inds:
+                t.remove_ind_(ix)
+    if "reconf" in hist and api not in COMPRESSED_APIS:
+        t.subtree_reconfigure_(subtree_size=3, maxiter=2, seed=11)
+        t.subtree_reconfigure_(subtree_size=4, maxiter=1, select="random", seed=12)
+    if "anneal" in hist and api not in COMPRESSED_APIS:
+        t.simulated_anneal_(tsteps=2, numiter=2, seed=13)
+    return t
+
+
+def tree_call(api, variant, t, seed):
+    """one NON-inplace seeded call on the object t"""
+    if api == "core.ContractionTree.get_subtree":
+        return canon(t.get_subtree(t.root, 4, search="random", seed=seed))
+    if api == "core.ContractionTree.slice":
+        return tree_obs_full(t.slice(target_slices=4, temperature=1.0, max_repeats=4, seed=seed))
+    if api == "core.ContractionTree.subtree_reconfigure":
+        kw = {"default": {}, "select_random": {"select": "random"}, "search_random": {"subtree_search": "random"}}[variant]
+        return tree_obs_full(t.subtree_reconfigure(subtree_size=4, maxiter=6, seed=seed, **kw))
+    if api == "core.ContractionTree.subtree_reconfigure_forest":
+        kw = {"default": {}, "select_max_bfs": {"subtree_search": ("bfs",), "subtree_select": ("max", "min")}}[variant]
+        return tree_obs_full(t.subtree_reconfigure_forest(num_trees=3, num_restarts=2, subtree_size=4, subtree_maxiter=4,
+                                                          parallel=False, seed=seed, **kw))
+    if api == "core.ContractionTree.unslice_rand":
+        return tree_obs_full(t.unslice_rand(seed=seed))
+    if api == "core.ContractionTree.windowed_reconfigure":
+        return tree_obs(t.windowed_reconfigure(minimize="peak-compressed-4", window_size=4, max_iterations=5,
+                                               max_window_tries=20, score_temperature=0.5, seed=seed))
+    if api == "core.ContractionTreeCompressed.simulated_anneal":
+        return tree_obs(t.simulated_anneal(minimize="peak-compressed-4", tsteps=3, numiter=4, seed=seed))
+    if api in ("core.ContractionTree.simulated_anneal", "pathfinders.path_simulated_annealing.simulated_anneal_tree"):
+        kw = {"default": {}, "sliced": {"target_size": 2 ** 6, "slice_mode": "drift"}}[variant]
+        if api.startswith("core."):
+            return tree_obs_full(t.simulated_anneal(tsteps=3, numiter=4, seed=seed, **kw))
+        from cotengra.pathfinders.path_simulated_annealing import simulated_anneal_tree
+        return tree_obs_full(simulated_anneal_tree(t, tsteps=3, numiter=4, seed=seed, **kw))
+    if api in ("core.ContractionTree.parallel_temper", "pathfinders.path_simulated_annealing.parallel_temper_tree"):
+        if api.startswith("core."):
+            return tree_obs_full(t.parallel_temper(tsteps=3, numiter=3, num_trees=3, max_time=None, parallel=False, seed=seed))
+        from cotengra.pathfinders.path_simulated_annealing import parallel_temper_tree
+        return tree_obs_full(parallel_temper_tree(t, tsteps=3, numiter=3, num_trees=3, max_time=None, parallel=False, seed=seed))
+    raise KeyError("no tree runner for %s" % api)
+
+
+def state_obs(t):
+    """what a NON-inplace call must leave alone: path, sliced indices and the reconfiguration record"""
+    d = tree_obs(t)
+    rec = getattr(t, "already_optimized", None)
+    if isinstance(rec, dict):
+        d["already_optimized"] = sorted(canon(sorted(sorted(x) for x in v)) for v in rec.values())
+    return d
+
+
+def run_repeat(api, variant, net, seed, hist, single_only):
+    inputs = [tuple(t) for t in net["inputs"]]
+    net = {"inputs": inputs, "output": tuple(net["output"]), "size_dict": dict(net["size_dict"])}
+    # the reference: ONE call on an independent rebuild of the state
+    ref = tree_call(api, variant, build_state(api, net, hist), seed)
+    if single_only:
+        return ref
+    t = build_state(api, net, hist)
+    before = state_obs(t)
+    r1 = tree_call(api, variant, t, seed)
+    r2 = tree_call(api, variant, t, seed)
+    # different seeded calls in between (same operation with another seed, and another operation)
+    tree_call(api, variant, t, (seed * 31 + 7) % (2 ** 31))
+    if api not in COMPRESSED_APIS:
+        t.subtree_reconfigure(subtree_size=3, maxiter=3, select="random", seed=(seed + 1) % (2 ** 31))
+    r3 = tree_call(api, variant, t, seed)
+    after = state_obs(t)
+    if r1 == r2 == r3 == ref and before == after:
+        return ref
+    return {"REPEATED_CALLS_DIFFER": True, "rebuilt_state_single_call": ref, "first": r1, "second": r2,
+            "third_after_other_seeded_calls": r3, "object_changed_by_non_inplace_calls": before != after}
+
+
 RUNNERS_SELFTEST = None
 
 
@@ -380,7 +497,11 @@ def main():
         signal.alarm(int(mode.get("job_timeout", 40)))
         try:
             TRACE["on"] = True
-            rec["result"] = run_api(job["api"], job.get("variant", "default"), job.get("net"), job["seed"])
+            if job.get("repeat"):
+                rec["result"] = run_repeat(job["api"], job.get("variant", "default"), job["net"], job["seed"],
+                                           job["repeat"], bool(mode.get("single_only")))
+            else:
+                rec["result"] = run_api(job["api"], job.get("variant", "default"), job.get("net"), job["seed"])
         except JobTimeout:
             rec["error"] = "timeout"
         except Exception as e:
